@@ -74,6 +74,15 @@ CORPUS = [
      [(("child", "model"),), (("child", "brand"), ("child", "name"))]),
     ('redact("modelx", "..name")', {"id": 7114905, "model": "zq0001x", "brand": {"name": ["zq0002x", "zq0003x"]}},
      [(("child", "modelx"),), (("desc",), ("child", "name"))]),
+    # an index counted from the end under several parents of different lengths
+    ('redact("rows[*][-1]")', {"rows": [["zq0001x", "zq0002x", "zq0003x"], ["zq0004x", "zq0005x"], ["zq0006x", "zq0007x", "zq0008x", "zq0009x"]]},
+     [(("child", "rows"), ("wild", "[*]"), ("nth", -1))]),
+    ('redact("items[*].tags[-2]")', {"items": [{"tags": ["zq0001x", "zq0002x"]}, {"tags": ["zq0003x", "zq0004x", "zq0005x"]}, {"tags": ["zq0006x", "zq0007x", "zq0008x", "zq0009x"]}]},
+     [(("child", "items"), ("wild", "[*]"), ("child", "tags"), ("nth", -2))]),
+    ('redact("..tags[-1]")', {"a": {"tags": ["zq0001x", "zq0002x", "zq0003x"]}, "b": {"tags": ["zq0004x"]}, "c": [{"tags": ["zq0005x", "zq0006x"]}]},
+     [(("desc",), ("child", "tags"), ("nth", -1))]),
+    ('redact("rows[*][1]")', {"rows": [["zq0001x", "zq0002x", "zq0003x"], ["zq0004x", "zq0005x"], ["zq0006x"]]},
+     [(("child", "rows"), ("wild", "[*]"), ("nth", 1))]),
 ]
 
 
